@@ -299,23 +299,35 @@ def parseExclusions : List Bytes → Option (List Exclusion)
       | none => none
       | some l => some (⟨g, a⟩ :: l)
 
-/-- `MavenDepTypeToDependency(typ)`: the dependency (group, artifact, version empty) and the origin -/
-def mavenDepTypeToDependency (t : DType) : Outcome (Dep × Bytes) :=
-  let optional : Bytes := if t.opt then bTrue else []
+/-- the value of an attribute, `""` when it is absent -/
+def orEmpty : Option Bytes → Bytes
+  | some b => b
+  | none => []
+
+/-- the scope `MavenDepTypeToDependency` reconstructs: `test` from the Test flag, else the Scope
+attribute; both at once is the error `invalid Maven dep.Type` (`none`) -/
+def backScope (t : DType) : Option Bytes :=
   let scope0 : Bytes := if t.test then bTest else []
-  match (match t.scope with
-         | none => some scope0
-         | some s => if !scope0.isEmpty then none else some s) with
-  | none => .err                                                  -- invalid Maven dep.Type
+  match t.scope with
+  | none => some scope0
+  | some s => if !scope0.isEmpty then none else some s
+
+/-- the exclusions it reconstructs (`none` = run-time panic) -/
+def backExclusions (t : DType) : Option (List Exclusion) :=
+  match t.excl with
+  | none => some []
+  | some e => parseExclusions (splitPipe e)
+
+/-- `MavenDepTypeToDependency(typ)`: the dependency (group, artifact, version empty) and the origin.
+The error return precedes the exclusions loop. -/
+def mavenDepTypeToDependency (t : DType) : Outcome (Dep × Bytes) :=
+  match backScope t with
+  | none => .err
   | some scope =>
-    let cls : Bytes := match t.cls with | some c => c | none => []
-    let typ : Bytes := match t.typ with | some x => x | none => []
-    match (match t.excl with
-           | none => some []
-           | some e => parseExclusions (splitPipe e)) with
+    match backExclusions t with
     | none => .panic
     | some ex =>
-      .ok (⟨[], [], [], typ, cls, scope, optional, ex⟩, match t.origin with | some o => o | none => [])
+      .ok (⟨[], [], [], orEmpty t.typ, orEmpty t.cls, scope, if t.opt then bTrue else [], ex⟩, orEmpty t.origin)
 
 /-- one `RequirementVersion` of the result (system Maven, version type Requirement) -/
 structure Req where
